@@ -194,6 +194,18 @@ def run(ctx: Ctx):
                    and "time.time()" in ast.unparse(r.value.left)
                    and A.dotted(r.value.right) == "self.last_disconnect" for r in rets):
             ctx.fail(cons, ds.loc(), "disconnected_since is not `now - last_disconnect`")
+        gd = cfg_of(ds)
+        atd = Atomizer(model, ds.module, ds.cls)
+        for n in gd.nodes:
+            if n.kind == "stmt" and isinstance(n.ast, ast.Return) and n.ast.value is not None \
+                    and not (isinstance(n.ast.value, ast.BinOp)):
+                facts = must_facts(gd, atd, n)
+                if ("self.last_disconnect", "truthy", None, False) not in facts and \
+                        ("self.last_disconnect", "is", None, True) not in facts:
+                    ctx.fail(cons + "#sentinel", gd.loc(n), f"disconnected_since returns "
+                             f"`{ast.unparse(n.ast.value)}` although a disconnect has been recorded "
+                             f"(guards: {sorted(map(str, facts))}): a persistent peer whose dial fails in "
+                             f"the same second is never dialled again")
 
     # ---------------- R3 duplicate-dial guards -------------------------------------
     ctx.rule("C12-R3", "_connect_to_peer / _add_peer_connection / start() duplicate-dial guards",
